@@ -834,12 +834,15 @@ class TrueTypeFont:
                     Tuple[int, ...],
                     struct.unpack(">%dH" % segcount, fp.read(2 * segcount)),
                 )
-                for ec, sc, idd, idr in zip(ecs, scs, idds, idrs):
+                for i, (ec, sc, idd, idr) in enumerate(zip(ecs, scs, idds, idrs)):
                     if idr:
-                        fp.seek(pos + idr)
+                        # idRangeOffset is relative to its own position in
+                        # the array, not to the start of the array
+                        fp.seek(pos + 2 * i + idr)
                         for c in range(sc, ec + 1):
                             b = cast(Tuple[int], struct.unpack(">H", fp.read(2)))[0]
-                            char2gid[c] = (b + idd) & 0xFFFF
+                            # glyph 0 means "missing": idDelta is not added
+                            char2gid[c] = (b + idd) & 0xFFFF if b else 0
                     else:
                         for c in range(sc, ec + 1):
                             char2gid[c] = (c + idd) & 0xFFFF
